@@ -181,41 +181,43 @@ Proof.
 Qed.
 Print Assumptions C20_analysis_never_crashes.
 
-(* all schedules, at quiescence (no HandleVisitor invocation can take a step): whatever is still in the table belongs
-   to an invocation blocked in  clientCfg.sidCh <- sid  whose receiver (the proxy's goroutine) is gone *)
-Theorem C20_sessions_at_quiescence :
+(* all schedules: at quiescence (no HandleVisitor invocation can take a step) the session table is empty (full strength,
+   code with F-C20b repaired: the hand-over of the sid has a timeout branch) *)
+Theorem C20_sessions_empty_at_quiescence :
   forall auth evs, let st := fst (ctl_run nh_today auth ctl_init evs) in
-  ctl_quiescent st = true ->
-  forall s, In s (st_sess st) -> ss_in_table s = true ->
-  ss_pc s = PcNotify /\ ctl_zin (ss_chan s) (st_alive st) = false.
+  ctl_quiescent st = true -> ctl_table st = [].
 Proof.
-  exact (fun auth evs => ctl_quiescent_sessions nh_today _
+  exact (fun auth evs => ctl_sessions_empty_at_quiescence nh_today _
            (ctl_run_inv nh_today auth (nh_T_ok C20_source_tables_check) evs ctl_init (ctl_inv_init nh_today))).
 Qed.
-Print Assumptions C20_sessions_at_quiescence.
+Print Assumptions C20_sessions_empty_at_quiescence.
 
-(* hence: sessions empty at quiescence, EXCEPT for hand-overs to an owner that went away (finding F-C20b) *)
-Theorem C20_sessions_empty_at_quiescence_partial :
-  forall auth evs, let st := fst (ctl_run nh_today auth ctl_init evs) in
-  ctl_quiescent st = true ->
-  (forall s, In s (st_sess st) -> ss_pc s = PcNotify -> ctl_zin (ss_chan s) (st_alive st) = true) ->
-  ctl_table st = [].
+(* all schedules: a session in the table always has an enabled step of its own (it is never wedged) *)
+Theorem C20_session_in_table_can_progress :
+  forall auth evs s, let st := fst (ctl_run nh_today auth ctl_init evs) in
+  In s (st_sess st) -> ss_in_table s = true -> ctl_sess_enabled st s = true.
 Proof.
-  exact (fun auth evs => ctl_sessions_empty_at_quiescence_partial nh_today _
+  exact (fun auth evs s => ctl_in_table_enabled nh_today _ s
            (ctl_run_inv nh_today auth (nh_T_ok C20_source_tables_check) evs ctl_init (ctl_inv_init nh_today))).
 Qed.
-Print Assumptions C20_sessions_empty_at_quiescence_partial.
+Print Assumptions C20_session_in_table_can_progress.
 
-(* the full clause is refuted by the faithful model: owner registers, a correctly signed visitor request is accepted,
-   the owner closes before taking the sid: quiescent, and the session stays (replayed on the real Controller by the driver) *)
+(* regression witness for the repaired defect F-C20b: owner registers, a correctly signed visitor request is accepted,
+   the owner closes before taking the sid.  Without the timeout branch of the hand-over nothing is enabled for the
+   session (this was the leak); with it the session is given up and the table is empty. *)
 Definition ex_vm0 : nh_vmsg :=
   {| vm_tid := [x74]; vm_proxy := [x70]; vm_precheck := false; vm_protocol := []; vm_signkey := []; vm_ts := 0;
      vm_mapped := []; vm_assisted := [] |}.
-Theorem C20_sessions_empty_at_quiescence_refuted :
-  exists evs, let st := fst (ctl_run nh_today (fun _ _ => []) ctl_init evs) in
-  ctl_quiescent st = true /\ ctl_table st = [0].
-Proof. exists [EvListen [x70] [] [ctl_star]; EvVisitor ex_vm0 0 []; EvClose [x70]]. vm_compute. split; reflexivity. Qed.
-Print Assumptions C20_sessions_empty_at_quiescence_refuted.
+Theorem C20_handover_to_departed_owner_witness :
+  let st := fst (ctl_run nh_today (fun _ _ => []) ctl_init [EvListen [x70] [] [ctl_star]; EvVisitor ex_vm0 0 []; EvClose [x70]]) in
+  ctl_table st = [0] /\ forallb (ctl_sess_enabled_before_repair st) (st_sess st) = false /\
+  ctl_step nh_today (fun _ _ => []) st (EvDeliver 0) = None /\
+  match ctl_step nh_today (fun _ _ => []) st (EvGiveUp 0) with
+  | Some (st', outs) => ctl_table st' = [] /\ ctl_quiescent st' = true /\ outs = []
+  | None => False
+  end.
+Proof. vm_compute. repeat split; reflexivity. Qed.
+Print Assumptions C20_handover_to_departed_owner_witness.
 
 (* ---- the hypotheses are satisfiable, the branches are inhabited ---- *)
 Definition ex_hard_regular : nh_feature := {| nf_nat := NhHard; nf_behav := NhPortChanged; nf_diff := 3; nf_regular := true; nf_public := false |}.
